@@ -7,7 +7,14 @@ EXPLANATION = ("A1 start(): on the path where one of the caller's controls has t
                "the caller's controls *without* a paging control, the stream's own handle gets those controls plus PagedResults{size: "
                "self.page_size, cookie: empty}, base/scope/filter/attrs are saved from the same-named parameters and the upcall receives "
                "them in order; A2 next(): anything but Ok(None) is returned unchanged; on Ok(None) the response control is looked up by "
-               "ControlType::PagedResults in the stored result and parsed as PagedResults; an empty cookie removes exactly that control and "
+               "ControlType::PagedResults in the stored result and parsed as PagedResults - on every path on which the page's result is "
+               "present, whatever it holds: no test on the way from the upstream's Ok(None) to the end / the follow-up / the removal (an `if`, "
+               "a match guard, a literal or range inside a pattern - a pattern with several refutable parts that fails is followed once per "
+               "part that can fail) reads the result code or any other field of the result than its control list, of a control anything "
+               "but its type, of the parsed paging control anything but the cookie; a path that ends the search with the result present and "
+               "no paging control found has a test over the control list to show for it; an empty cookie removes exactly that control - the "
+               "first control of the paging type in the list, the one whose cookie was examined; a second paging control in the same "
+               "result, which RFC 2696 does not provide for, is neither examined nor removed - and "
                "ends; a non-empty cookie issues streaming_search(self.base, self.scope, self.filter, self.attrs) on a clone of the saved "
                "handle (timeout, options copied) whose controls are - element by element, whatever pushes, pops, truncations, retains the "
                "code applies to the vector, on an owned copy or through a `&mut` into the saved handle - every saved control followed by one "
@@ -24,7 +31,9 @@ EXPLANATION = ("A1 start(): on the path where one of the caller's controls has t
                "number of pages, exactly-once delivery over a run, termination.")
 TRUSTED = ['the server returns cookies as RFC 2696 says', 'C19 (paging control codec)', 'C10 (stream state machine)']
 UNDECIDED = ['exactly-once delivery / number of pages / termination over a run (runtime quantities)']
-ASSUMPTIONS = ['a generic control stands for every element of the control lists']
+ASSUMPTIONS = ['a generic control stands for every element of the control lists',
+               'a SearchResultDone carries the paging control at most once (RFC 2696 section 3: the server returns one); of two the adapter examines and removes '
+               'only the first, the final result then still holds the second']
 SHARED = [('C02', ('M1.', 'S.request-shape'), 'A4.options-reach-the-adapter'),
           # "each entry exactly once; follow-ups are issued only at the end of a page with that page's cookie": the adapter takes Ok(None)
           # from the inner stream for "this page is complete, its result is in stream.res".  That holds only if next_inner answers
@@ -67,6 +76,52 @@ def content(t, whole):
     if t[0] == 'many' and t[3] == ('skip',):
         return [('dropped', t[1])]          # the generic element of the source is removed
     return [('opaque', t)]
+
+RES0 = ('variant', ('field', STREAM, 'res'), 'Some', 0)      # the result of the page that has just ended
+RESULT_FIELD = {'rc': 'result code', 'matched': 'matched DN', 'text': 'diagnostic message', 'refs': 'referrals'}
+
+def foreign_tests(o):
+    """The tests on a path (atoms of its path condition) that read something of the ended page's result other than what C16 lets the
+    page end depend on, as (what is read, atom, truth): a field of the result that is not its control list, or the result as a
+    whole handed to a function; of a control, anything but its type (the `Option<ControlType>` / the OID in the raw control); of
+    the parsed paging control, anything but the cookie.  Read off the terms (a place below stream.res' payload), so an `if`, a
+    match guard and a literal inside a pattern are the same."""
+    CTRLS = ('field', RES0, 'ctrls')
+    def is_elem(x):
+        while isinstance(x, tuple) and x and x[0] in ('field', 'variant', 'elem', 'enumerate', 'index'):
+            if x == CTRLS:
+                return True
+            x = x[1]
+        return False
+    def reads(x, parent, found):
+        if not isinstance(x, tuple) or not x:
+            return
+        if x == CTRLS:
+            return
+        if x == RES0:
+            if parent is not None and parent[0] == 'field' and parent[1] == RES0:
+                found.append(RESULT_FIELD.get(parent[2], 'field `%s`' % parent[2]))
+            elif parent is not None and parent[0] == 'call':
+                found.append('result as a whole (through `%s`)' % str(parent[1]).rsplit('::', 1)[-1])
+            else:
+                found.append('result as a whole')
+            return
+        if x[0] == 'field' and len(x) == 3 and isinstance(x[1], tuple) and x[1]:
+            if x[2] in ('crit', 'val') and is_elem(x[1]):
+                found.append('control\'s `%s`' % x[2])
+            elif x[2] != 'cookie' and x[1][0] == 'call' and x[1][1] == 'ldap3::controls_impl::RawControl::parse' and absx.leaves(x[1], lambda y: y == CTRLS):
+                found.append('paging control\'s `%s`' % x[2])
+        tagged = isinstance(x[0], str)       # an argument tuple is not a term of its own: its members' parent is the call
+        for y in x:
+            reads(y, x if tagged else parent, found)
+    out, seen = [], set()
+    for a, t in o.st.pc:
+        found = []
+        reads(a, None, found)
+        for w in found:
+            if (w, a) not in seen:
+                seen.add((w, a)); out.append((w, a, t))
+    return out
 
 def rooted_in(t, root):
     """t is a place below root: root itself, a field of it, the payload of an Option in it ..."""
@@ -249,6 +304,8 @@ def run(ctx):
         return e is not None and e[0] == 'panic' and e[1].startswith('core::option::Option::<T>::') and e[1].rsplit('::', 1)[-1] in absx.Interp.OPTION_PAYLOADS \
             and bool(e[2]) and rooted_in(e[2][0], SELF) and e[2][0] != SELF and absx.pc_variant(o.st.pc, lambda v: v == e[2][0], 'None') is True
     judged = []
+    page_ends = []              # the paths on which the upstream reported the end of a page
+    foreign = {}                # what else of the page's result the page-end paths test: {what: [(severity, atom, truth, what the path does)]}
     request_fields = set()      # the fields of the adapter a follow-up request is built from (read off the follow-up paths)
     def judge_state(o, which):
         judged.append((o, which))
@@ -277,6 +334,19 @@ def run(ctx):
             judge_state(o, 'passthrough')
             ctx.add('A2.passthrough', 'entries / errors', loc(N.root), sem.reconstructs(o.val, up) and not searches and not removes, 'anything but Ok(None) must be returned unchanged')
             continue
+        # The page has ended and its result is what stream.res holds.  What happens now - end, follow-up, removal of the control - may
+        # depend on nothing but: is there a result, is there a paging control among its controls, is that control's cookie empty.
+        # Stated about every path on which the upstream answered Ok(None), whatever it goes on to do: no test on the way (an `if`, a
+        # guard, a literal or a range inside a pattern, a `matches!`) reads another part of the result or of the control.
+        for what, a, t in foreign_tests(o):
+            ended = not searches and o.kind == 'ret'
+            sev, outcome = (0, 'ends the search without looking at the cookie (the pages that remain are never requested, the paging control stays in the final result)') \
+                if ended and not parses and not removes else \
+                (1, 'ends the search and leaves the paging control in the final result') if ended and not removes else \
+                (2, 'asks for the next page') if searches else (2, 'removes the paging control and ends') if removes else (2, 'goes on')
+            foreign.setdefault(what, []).append((sev, absx.fmt(a)[:80], 'true' if t else 'false', outcome))
+        page_ends.append(o)
+        ctx.add('A2.page-end-decided-by-cookie-alone', 'page-end path %d' % len(page_ends), loc(N.root), True, '')
         res_some = next((t for a, t in o.st.pc if a == ('is', ('field', STREAM, 'res'), 'Some')), None)
         if res_some is False:
             seen.add('no-result')
@@ -290,6 +360,13 @@ def run(ctx):
         if pos:
             is_pr = pos[0][0]
         if not is_pr:
+            # "the result holds no paging control" is something the path must have found out: a test over the result's control list (an
+            # element's type found different, a search that came back empty, an empty list) - a path that ends here for another reason,
+            # or for none the rules can read, has not looked
+            looked = any(absx.leaves(a, lambda x: x == ctrls) for a, t in o.st.pc)
+            ctx.add('A2.page-end-looks-for-the-control', 'result present', loc(N.root), looked,
+                    'with the page\'s result present next() ends the search without having looked for the paging control among its controls (no test on the path reads the control list): '
+                    'a cookie in it is ignored, the pages that remain are never requested, the control stays in the final result')
             seen.add('no-paging-control')
             judge_state(o, 'no-paging-control')
             ctx.add('A2.no-paging-control', 'result without the control', loc(N.root), o.val == ('ctor', 'Ok', (('ctor', 'None', ()),)) and not searches and not removes,
@@ -395,6 +472,13 @@ def run(ctx):
             ctx.add('A2.splices-new-stream', which, loc(N.root), oksp, 'after a successful follow-up the stream must continue on the new search\'s handle and receiver' + ('' if rec_ok else ' and take over its record of the Search\'s message ID (%s): a later expiry or early finish would scrub the previous page\'s ID' % ', '.join(SID.record_fields)))
         else:
             ctx.add('A2.follow-up-error-returned', which, loc(N.root), o.kind == 'ret' and sem.is_err_result(o.val) and sem.has(o.val, lambda x: x == sterm) and not removes, 'a failed follow-up search must be returned as the error')
+    for what, l in sorted(foreign.items()):
+        # one report per part of the result that is read, worded by the path that loses most (pages not requested > control left in)
+        sev, atom, truth, outcome = sorted(l)[0]
+        ctx.fail('A2.page-end-decided-by-cookie-alone', what, loc(N.root),
+                 'the page\'s %s decides whether its cookie is looked at / its paging control removed: where `%s` is %s next() %s; at the end of a page '
+                 'nothing but the presence of the page\'s result, of the paging control in it and the emptiness of its cookie may decide what happens '
+                 '(%d path(s) of next() test it)' % (what, atom, truth, outcome, len(l)))
     for o, which in judged:
         judge_state_now(o, which)
     for need in ('passthrough', 'no-result', 'no-paging-control', 'last-page', 'follow-up|ok', 'follow-up|err'):
